@@ -3,6 +3,7 @@
 package rules
 
 import (
+	"go/types"
 	"reflect"
 	"fmt"
 	"go/token"
@@ -74,6 +75,9 @@ func Run(id string, p *core.Prog, tier string) (res *core.Result) {
 		}
 		sort.Strings(names)
 		p.AliasConverted(names)
+		// pure renames of functions, methods and fields (see core/shapes.go)
+		p.AliasRenamed(knownFuncShapes, knownFuncs)
+		p.AliasRenamedFields(knownFieldShapes)
 	}
 	f(&Ctx{P: p, R: res, Tier: tier, borrowing: []uintptr{reflect.ValueOf(f).Pointer()}})
 	res.Finish()
@@ -291,4 +295,42 @@ func isCapturedState(fn *ssa.Function, t *core.Term) bool {
 		return b.Kind == core.KParam && b.Ref == fn.Params[0]
 	}
 	return false
+}
+
+// GenShapes renders rules/known_shapes.go for the loaded tree (maintenance aid: run on the tree the rules were written for).
+func GenShapes(p *core.Prog) string {
+	var b strings.Builder
+	b.WriteString("package rules\n\n// Code generated by `wsverif -gen-shapes`; fingerprints of the anchor functions and of all struct fields on the\n// tree the rules were written for (see core/shapes.go).  Not a rule: used only to re-bind an anchor after a pure rename.\n\nvar knownFuncShapes = map[string]string{\n")
+	names := make([]string, 0, len(knownFuncs))
+	for n := range knownFuncs {
+		names = append(names, n)
+	}
+	sort.Strings(names)
+	for _, n := range names {
+		if strings.Contains(n, "$") {
+			continue
+		}
+		if f := p.FuncOpt(n); f != nil {
+			fmt.Fprintf(&b, "\t%q: %q,\n", n, p.FuncShape(f))
+		}
+	}
+	b.WriteString("}\n\nvar knownFieldShapes = map[string]string{\n")
+	scope := p.Types.Scope()
+	tnames := scope.Names()
+	sort.Strings(tnames)
+	for _, tn := range tnames {
+		o, ok := scope.Lookup(tn).(*types.TypeName)
+		if !ok {
+			continue
+		}
+		st, ok := o.Type().Underlying().(*types.Struct)
+		if !ok {
+			continue
+		}
+		for i := 0; i < st.NumFields(); i++ {
+			fmt.Fprintf(&b, "\t%q: %q,\n", tn+"."+st.Field(i).Name(), p.FieldShape(tn, st.Field(i)))
+		}
+	}
+	b.WriteString("}\n")
+	return b.String()
 }
